@@ -58,7 +58,7 @@ CHECKS = {
            "(C10_patterns_without_repetitions_sound / C10_built_globs_without_repetitions_sound_unconditionally, where adjacency is discharged by the rule-checker theorem of C06, and C10_built_globs_without_repetitions_sound_for_paths_rooted_like_the_glob, where the path is rooted exactly when has_root says Always: terms are sound summaries of flat sequences, summaries compose under "
            "conjunction whatever the grouping, the disjunction covers its operands; the matching expansion has no adjacent boundaries; the known class closed_variant_finalize "
            "is excluded by its predicate); every flat glob that builds, with or without tree wildcards (C10_built_flat_globs_sound, C10_flat_with_tree_wildcards_sound, "
-           "C10_flat_sound: exact depth without tree wildcards, a sound lower bound with them); and with repetitions that are written out at least once and whose body has a single depth term (C10_patterns_with_simple_repetitions_sound: ranges instead of exact counts; C10_conjunction_sound, C10_product_sound for arbitrary ranges; C10_built_globs_with_simple_repetitions_sound_unconditionally: adjacency discharged by C06 with repetitions when the bodies begin and end with a leaf). Optional repetitions and bodies with several terms: the general statement is in the file as C10_full. Tie: depth() exact variance vs the model of the whole algebra "
+           "C10_flat_sound: exact depth without tree wildcards, a sound lower bound with them); and with repetitions that are written out at least once and whose body has a single depth term (C10_patterns_with_simple_repetitions_sound: ranges instead of exact counts; C10_conjunction_sound, C10_product_sound for arbitrary ranges; C10_built_globs_with_simple_repetitions_sound_unconditionally: adjacency discharged by C06 with repetitions when the bodies begin and end with a leaf; C10_built_globs_with_simple_repetitions_sound_for_paths_rooted_like_the_glob: rootedness stated through has_root for globs that start plainly). Optional repetitions and bodies with several terms: the general statement is in the file as C10_full. Tie: depth() exact variance vs the model of the whole algebra "
            "(conjunction table, disjunction over hash sets, products, finalize). Oracle: component count of every matched canonical path within the reported variance.",
     'C11': "Proved (all token trees, combinators included): C11_one_and_only - if the pattern reports invariant text, its documented language is exactly that text: no "
            "other text belongs to it (C11_unique; hypothesis on the two tables: a caseless character only folds to itself; validated over all code points on every "
